@@ -402,7 +402,49 @@ func (s *Sim) opMisuse(op *Op) {
 			return
 		}
 		r := RelTypes[abs(op.N)%len(RelTypes)]
-		switch abs(int(op.X)) % 7 {
+		switch abs(int(op.X)) % 9 {
+		case 7, 8:
+			// two relation components, as many targets as relation components, but both for the
+			// same component: the target of the other one is omitted
+			t1, t2 := ecs.Entity{}, ecs.Entity{}
+			if e := s.M.PickLive(op.E); e != nil {
+				t1, t2 = e.H, e.H
+				if e2 := s.M.PickLive(op.E + 1); e2 != nil && op.N%2 == 0 {
+					t2 = e2.H
+				}
+			}
+			if abs(int(op.X))%9 == 7 {
+				idx := -1
+				for k := 0; k < len(MapTuples); k++ {
+					i := NumMapSingles + (abs(op.Ad)+k)%(len(MapTuples)-NumMapSingles)
+					if len(relTypesOf(MapTuples[i])) == 2 {
+						idx = i
+						break
+					}
+				}
+				if idx < 0 {
+					s.skip(op)
+					return
+				}
+				tuple := MapTuples[idx]
+				pos := -1
+				for i, t := range tuple {
+					if U[t].IsRel {
+						pos = i
+						if op.N%3 == 0 {
+							break
+						}
+					}
+				}
+				s.expectPanic(mapperName(tuple, idx)+".NewEntity", "missing_target_dup", func() {
+					s.mapper(idx).NewEntity(make([]uint64, len(tuple)), []ecs.Relation{ecs.RelIdx(pos, t1), ecs.RelIdx(pos, t2)})
+				})
+			} else {
+				r2 := RelTypes[(abs(op.N)+1)%len(RelTypes)]
+				s.expectPanic("Unsafe.NewEntityRel", "missing_target_dup", func() {
+					s.W.Unsafe().NewEntityRel([]ecs.ID{s.ids[r], s.ids[r2], s.ids[2]}, ecs.RelID(s.ids[r], t1), ecs.RelID(s.ids[r], t2))
+				})
+			}
 		case 4, 5:
 			// Map.Add / Map.AddFn without the required target, on a mapper that may have been
 			// used with a target before (mappers are cached per world)
@@ -411,7 +453,7 @@ func (s *Sim) opMisuse(op *Op) {
 				s.skip(op)
 				return
 			}
-			if abs(int(op.X))%7 == 4 {
+			if abs(int(op.X))%9 == 4 {
 				s.expectPanic("Map.Add", "missing_target", func() {
 					singleTargets = singleTargets[:0]
 					s.mapper(r).Add(e.H, []uint64{1}, nil)
